@@ -59,7 +59,7 @@ func c11Fixed(fields []string) map[string]string {
 		"/fx/layout.jet":  `<layout>{{ block body() }}default{{ end }}</layout>`,
 		"/fx/fail.jet":    `before{{ range xs }}{{ .NoField }}{{ end }}after`,
 		// try inside try inside try, each with output of its own that depends on the data
-		"/fx/trynest.jet": `{{ try }}A{{ .U.Name }}{{ try }}B{{ range xs }}{{ . }}{{ end }}{{ try }}C{{ .U.Name }}{{ .U.NoField }}{{ catch }}c{{ end }}{{ .U.Name }}{{ end }}{{ try }}{{ noSuchThing }}{{ catch e }}D{{ try }}E{{ .U.Name }}{{ end }}{{ end }}tail{{ .U.Name }}{{ end }}{{ try }}F{{ include "/fx/part.jet" .U }}{{ end }}`,
+		"/fx/trynest.jet":  `{{ try }}A{{ .U.Name }}{{ try }}B{{ range xs }}{{ . }}{{ end }}{{ try }}C{{ .U.Name }}{{ .U.NoField }}{{ catch }}c{{ end }}{{ .U.Name }}{{ end }}{{ try }}{{ noSuchThing }}{{ catch e }}D{{ try }}E{{ .U.Name }}{{ end }}{{ end }}tail{{ .U.Name }}{{ end }}{{ try }}F{{ include "/fx/part.jet" .U }}{{ end }}`,
 		"/fx/tryblock.jet": `{{ import "/fx/lib.jet" }}{{ try }}{{ yield box(title=.U.Name) content }}{{ try }}in{{ .U.Name }}{{ end }}{{ end }}{{ end }}{{ try }}{{ range i := ints(0, 3) }}{{ try }}{{ i }}{{ if i == 1 }}{{ .U.NoField }}{{ end }}ok{{ catch }}!{{ end }}{{ end }}{{ end }}`,
 	}
 }
